@@ -50,6 +50,7 @@ class KNode:
         self.k = simproc.new_kconfig(self.kpath, parser=self.parser, policy=self.policy, renames=[self.rn] if self.rn else None)
         self.loads = 0
         self.stale_marked_loads = 0
+        self.last_set_ok = None
         return self.k
 
     def twin(self, tag=None, prog_text=None, policy="same"):
@@ -75,8 +76,9 @@ class KNode:
             with simproc.quiet():
                 if kind == "set":
                     s = k.syms.get(op[1])
+                    self.last_set_ok = None
                     if s is not None and s.nodes:
-                        s.set_value(op[2])
+                        self.last_set_ok = bool(s.set_value(op[2]))
                 elif kind == "unset":
                     s = k.syms.get(op[1])
                     if s is not None and s.nodes:
@@ -168,17 +170,28 @@ def diff_views(a, b, limit=4):
     return [(n, a.get(n), b.get(n)) for n in sorted(set(a) | set(b)) if a.get(n) != b.get(n)][:limit]
 
 
-def user_state(k):
-    """The user-visible 'final user values and choice picks' of a node."""
-    st = {"syms": [], "choices": []}
+def user_state(k, model=None):
+    """The user-visible 'final user values and choice picks' of a node.  Where the history model (UserModel) knows a
+    value or a pick for sure, the model's knowledge replaces the node's own record of what the user did - an oracle
+    that only reads the system's record cannot see that record being wrong."""
+    st = {"syms": [], "choices": [], "from_model": 0}
     for s in k.unique_defined_syms:
-        if s._user_value is not None and not s.choice:
+        if s.choice:
+            continue
+        if model is not None and model.vals.get(s.name, UNKNOWN) is not UNKNOWN:
+            st["from_model"] += 1
+            if model.vals[s.name] is not None:
+                st["syms"].append((s.name, model.vals[s.name]))
+        elif s._user_value is not None:
             st["syms"].append((s.name, s._user_value))
     for i, c in enumerate(k.unique_choices):
-        ys = [m.name for m in c.syms if m._user_value == 2 and m is not c._user_selection]
-        ns = [m.name for m in c.syms if m._user_value == 0]
-        st["choices"].append({"i": i, "sel": c._user_selection.name if c._user_selection else None, "ys": ys, "ns": ns,
-                              "mode": c._user_value})
+        sel = c._user_selection.name if c._user_selection else None
+        if model is not None and model.pick.get(i, UNKNOWN) is not UNKNOWN:
+            sel = model.pick[i]
+            st["from_model"] += 1
+        ys = [m.name for m in c.syms if m._user_value == 2 and m.name != sel]
+        ns = [m.name for m in c.syms if m._user_value == 0 and m.name != sel]
+        st["choices"].append({"i": i, "sel": sel, "ys": ys, "ns": ns, "mode": c._user_value})
     return st
 
 
@@ -209,6 +222,87 @@ def transplant(k2, st, order=None):
                 ch.set_value(c["mode"])
 
 
+UNKNOWN = "<unknown>"
+
+
+class PickModel:
+    """Bookkeeping model of 'the user's pick' per choice, kept from the history alone (a map, nothing else).
+    Definite after: set member y; Choice.unset_value(); reset of a member; reset of the whole tree; a *replacing* load of a
+    hand-written file (last y entry of the choice wins, no y entry = no pick).  Everything else (member set n / unset,
+    reset of a sub-menu, merges, tool-written files, restarts) makes the affected picks unknown; the monitor then
+    falls back to the node's own record, so the model can only add demands it is sure of."""
+
+    def __init__(self, k):
+        self.member_choice = {m.name: i for i, c in enumerate(k.unique_choices) for m in c.syms}
+        self.pick = {i: None for i in range(len(k.unique_choices))}
+
+    def all_unknown(self):
+        for i in self.pick:
+            self.pick[i] = UNKNOWN
+
+    def apply(self, op, hand, node=None):
+        kind = op[0]
+        if kind == "set":
+            i = self.member_choice.get(op[1])
+            if i is not None:
+                if op[2] == "y":
+                    self.pick[i] = op[1]
+                elif self.pick[i] in (op[1], UNKNOWN):
+                    self.pick[i] = UNKNOWN
+        elif kind == "unset":
+            i = self.member_choice.get(op[1])
+            if i is not None and self.pick[i] in (op[1], UNKNOWN):
+                self.pick[i] = UNKNOWN
+        elif kind == "cunset":
+            if self.pick:
+                self.pick[op[1] % len(self.pick)] = None
+        elif kind == "reset":
+            i = self.member_choice.get(op[1])
+            if i is not None:
+                self.pick[i] = None
+        elif kind == "reset_menu":
+            self.all_unknown()
+        elif kind == "load_hand" and hand and op[2]:
+            text = hand[op[1] % len(hand)]
+            newpick = {i: None for i in self.pick}
+            for ln in text.splitlines():
+                ln = ln.strip()
+                if ln.startswith("CONFIG_") and "=" in ln:
+                    name, val = ln[len("CONFIG_"):].split("=", 1)
+                    i = self.member_choice.get(name)
+                    if i is not None and val.startswith("y"):
+                        newpick[i] = name
+            self.pick = newpick
+        elif kind in ("load", "load_hand", "restart"):
+            self.all_unknown()
+
+
+class UserModel(PickModel):
+    """PickModel plus the user values of plain (non-member) options, again from the history alone: the raw value of the
+    last *accepted* `set` (acceptance = the boolean the setter returned), removed by unset / reset of that option;
+    resets of menus, loads and restarts make everything unknown (the node's own record is used then)."""
+
+    def __init__(self, k):
+        super().__init__(k)
+        self.plain = [s.name for s in k.unique_defined_syms if not s.choice]
+        self.vals = {n: None for n in self.plain}
+
+    def apply(self, op, hand, node=None):
+        super().apply(op, hand, node)
+        kind = op[0]
+        if kind == "set" and op[1] in self.vals:
+            ok = node.last_set_ok if node is not None else None
+            if ok is True:
+                self.vals[op[1]] = op[2]
+            elif ok is None:
+                self.vals[op[1]] = UNKNOWN
+        elif kind in ("unset", "reset") and op[1] in self.vals:
+            self.vals[op[1]] = None
+        elif kind in ("reset_menu", "load", "load_hand", "restart"):
+            for n in self.vals:
+                self.vals[n] = UNKNOWN
+
+
 def injected(k):
     """Options carrying an injected sdkconfig default (not user state)."""
     return [s.name for s in k.unique_defined_syms if getattr(s, "_default_value_injected", False)] + \
@@ -236,15 +330,21 @@ def gen_history(r, prog, n_ops, weights=None, sane=0.8, hand_n=0, slots=3, olds=
     hot = mentioned_names(prog) or names
     nch = sum(1 for it in kgen.walk(prog["items"]) if it["k"] == "choice")
     w = {"set": 40, "unset": 8, "cunset": 3, "reset": 8, "reset_menu": 3, "read": 18, "save": 6, "save_min": 0, "load": 6,
-         "load_hand": 3 if hand_n else 0, "restart": 4, "edge": 0}
+         "load_hand": 3 if hand_n else 0, "restart": 4, "edge": 0, "dance": 2}
     member_bias = 0.25
     if weights:
         weights = dict(weights)
         member_bias = weights.pop("member_bias", member_bias)
         w.update(weights)
-    edges = kgen.dep_edges(prog) if w.get("edge") else []
+    edges = kgen.dep_edges(prog) if (w.get("edge") or w.get("dance")) else []
     if not edges:
         w["edge"] = 0
+    # members whose visibility hangs on an option outside their choice, with their siblings (for "dance")
+    groups = [[c["name"] for c in kgen.walk(it["items"]) if c["k"] == "config"] for it in kgen.walk(prog["items"]) if it["k"] == "choice"]
+    group_of = {m: (gi, g) for gi, g in enumerate(groups) for m in g}
+    gated = sorted({(a, b) for a, b, en in edges if b in group_of and a not in group_of[b][1]})
+    if not gated:
+        w["dance"] = 0
     kinds = [k for k, v in w.items() for _ in range(v)]
     ops = []
     saved = set()
@@ -266,6 +366,34 @@ def gen_history(r, prog, n_ops, weights=None, sane=0.8, hand_n=0, slots=3, olds=
                 ops.append(["reset", a])
             else:
                 ops.append(["unset", a])
+        elif kind == "dance":
+            # picks made around a visibility flip of a (picked) member: pick, hide, pick again / reset / unpick, show
+            a, b = r.choice(gated)
+            gi, g = group_of[b]
+            sibs = [m for m in g if m != b] or [b]
+            ta = tab[a]["type"]
+
+            def flip():
+                ops.append(["set", a, r.choice(kgen.SANE[ta])])
+
+            if r.random() < 0.6:
+                ops.append(["set", r.choice(sibs), "y"])
+            ops.append(["set", b, "y"])
+            flip()
+            if r.random() < 0.3:
+                ops.append(["read", [b, gi], 15])
+            k2 = r.random()
+            if k2 < 0.4:
+                ops.append(["set", r.choice(sibs), "y"])
+            elif k2 < 0.55:
+                ops.append(["set", b, r.choice(["y", "n"])])
+            elif k2 < 0.7:
+                ops.append(["reset", r.choice(g)])
+            elif k2 < 0.8:
+                ops.append(["cunset", gi])
+            elif k2 < 0.9:
+                ops.append(["unset", r.choice(g)])
+            flip()
         elif kind == "set":
             pool = members if (members and r.random() < member_bias) else (hot if r.random() < 0.5 else names)
             nm = r.choice(pool)
